@@ -24,7 +24,7 @@ def load_mutants():
         if os.path.exists(mp):
             meta = json.load(open(mp))
             keys = [k.split('|')[0] for k in meta.get('checks', {}).get(meta['property'], {}).get('violation_keys', [])][:1]
-            muts.append({'id': 'seed-' + d, 'props': [meta['property']], 'expect': 'fire', 'keys': keys, 'patch': os.path.join(sd, d, 'patch.diff')})
+            muts.append({'id': 'seed-' + d, 'props': [meta['property']], 'expect': 'fire', 'keys': keys, 'patch': os.path.join(sd, d, 'patch.diff'), 'base_files': meta.get('base_files') or {}})
     return muts
 
 
@@ -49,7 +49,7 @@ def apply(edits):
 
 
 def restore():
-    subprocess.run(['git', '-C', REPO, 'checkout', '--', '.'], check=True)
+    subprocess.run(['git', '-C', REPO, 'checkout', 'HEAD', '--', '.'], check=True)
 
 
 def main():
@@ -63,6 +63,8 @@ def main():
         if want and not any(m['id'].startswith(w) for w in want):
             continue
         try:
+            for f, c in (m.get('base_files') or {}).items():
+                subprocess.run(['git', '-C', REPO, 'checkout', c, '--', f], check=True)
             if m.get('patch'):
                 apply_patch(m['patch'] if os.path.isabs(m['patch']) else os.path.join(HERE, m['patch']))
             apply(m.get('edits', []))
